@@ -110,6 +110,7 @@ Record label_facts := mkLabelFacts {
   f_repl : repl_kind;
   f_iso_helpers : bool;             (* the small helpers of label_map.py have the modelled shape *)
   f_lin_dir : direction;            (* reading direction used by LinearLabelMapper.build_model *)
-  f_lin_helpers : bool              (* the helpers / loop of linear_label_map.py have the modelled shape *)
+  f_lin_helpers : bool;             (* the helpers / loop of linear_label_map.py have the modelled shape *)
+  f_init_name : init_name_kind      (* name that receives the amount of an initially labelled compound *)
 }.
 Definition ext_bit_of (f : label_facts) : bool := match f_ext_bit f with Some b => b | None => false end.
